@@ -111,9 +111,16 @@ def body(chk, db, cfgname):
             idxs.add(u[3][1])
     fa = at.get(f.cfg.pos1(N), frozenset())
     flag = None
+    inverted = None
     for x in fa:
         if x[0] == "true" and x[1][0] == "var" and ctx.decls.get(x[1][1], {}).get("t") == "bool":
             flag = x[1]
+        if x[0] == "false" and x[1][0] == "var" and ctx.decls.get(x[1][1], {}).get("t") == "bool":
+            # a flag that is set under isRetained(...) and must be FALSE for the part to be created
+            for m in ctx.mut.get(x[1][1], []):
+                mfa_ = at.get(f.cfg.pos1(m), frozenset())
+                if any(y[0] == "true" and y[1][0] == "mcall" and y[1][1] == DM + "::isRetained" for y in mfa_):
+                    inverted = x[1]
     good = False
     why = "the part is created without a dominating 'some block of the stripe is retained' flag"
     if flag is not None and arr is not None:
@@ -145,8 +152,15 @@ def body(chk, db, cfgname):
             why = "the retention loop looks at LeftIndices[k] for k in %s but the part uses blocks %s: a stripe whose only retained block is not inspected is dropped" % (sorted(krange), sorted(idxs))
         else:
             why = "the 'retained' flag is not (false initially, set true only under DM.isRetained(LeftIndices[k]) in a full loop over the stripe)"
+    has_ret = any(n_["k"] == "call" and strip_targs(n_.get("cname") or "") == DM + "::isRetained" for _, n_ in f.walk(f.body))
     if good:
         r1.ok(site, f.loc(N), "created iff DM.isRetained(LeftIndices[k]) for some k in 0..3, the four blocks whose data the part uses", cfgname)
+    elif not has_ret:
+        r1.ok(site, f.loc(N), "no truncation guard: every stripe is kept (eps = 0 behaviour)", cfgname)
+    elif inverted is not None and flag is None:
+        r1.bad(site, f.loc(N), "the part is created only when '%s' (set under DM.isRetained) is false: exactly the stripes that still have a retained block are dropped" % inverted[2], cfgname)
+    elif flag is None or arr is None:
+        r1.unknown(site, f.loc(N), "the retention guard of the two-particle parts is written in a form that is not analysed (no boolean flag set in a loop over the stripe)", cfgname)
     else:
         r1.bad(site, f.loc(N), why, cfgname)
     # ensemble average
